@@ -4,7 +4,7 @@
    block is empty, constructor-filled, or decoded from a valid encoding (distinct channels). *)
 From Model Require Import Base BlockAPI.
 From Proofs Require Import BaseFacts.
-From Coq Require Import ZifyBool.
+From Coq Require Import ZifyBool FinFun.
 Open Scope Z_scope.
 
 Definition aligned (b : cblock) : Prop := length (c_map b) = length (c_items b) /\ NoDup (c_map b).
@@ -17,7 +17,12 @@ Proof.
 Qed.
 
 Lemma zmax_ge l : forall x, In x l -> x <= zmax l.
-Proof. induction l as [|y l IH]; cbn [In zmax]; [tauto|]. intros x [->|H]; [lia|specialize (IH x H); lia]. Qed.
+Proof.
+  induction l as [|y l IH]; cbn [In]; [tauto|]. intros x Hx. destruct l as [|z l].
+  - cbn [zmax]. destruct Hx as [->|[]]. lia.
+  - change (zmax (y :: z :: l)) with (Z.max y (zmax (z :: l))).
+    destruct Hx as [->|H]; [lia|specialize (IH x H); lia].
+Qed.
 
 Lemma next_channel_fresh m : ~ In (next_channel m) m.
 Proof.
@@ -39,29 +44,83 @@ Proof.
   f_equal. apply IH. lia.
 Qed.
 
-(* ---- one add ---- *)
-Theorem C15_add_auto : forall k b x, aligned b -> is_item x = true ->
-  exists c, ~ In c (c_map b) /\
-    c_add1 k b x None = (None, mkCB (c_map b ++ [c]) (c_items b ++ [x])) /\
-    aligned (snd (c_add1 k b x None)) /\ c_pairs (snd (c_add1 k b x None)) = c_pairs b ++ [(c, x)].
+(* every channel of the map fits the 16-bit field it is stored in *)
+Definition ranged (k : ckind) (b : cblock) : Prop := Forall (fun c => ch_ok k c = true) (c_map b).
+
+Lemma zmax_in l : l <> [] -> In (zmax l) l.
 Proof.
-  intros k b x [Hl Hn] Hx. exists (next_channel (c_map b)). unfold c_add1. rewrite Hx. cbn [negb snd].
-  pose proof (next_channel_fresh (c_map b)) as Hf. repeat split.
-  - exact Hf.
-  - cbn [c_map c_items]. rewrite !app_length. cbn. lia.
-  - cbn [c_map]. now apply NoDup_snoc.
-  - unfold c_pairs. cbn [c_map c_items]. now apply combine_snoc.
+  induction l as [|y l IH]; [congruence|]. intros _. destruct l as [|z l].
+  - cbn [zmax In]. now left.
+  - assert (IH' : In (zmax (z :: l)) (z :: l)) by (apply IH; discriminate).
+    change (zmax (y :: z :: l)) with (Z.max y (zmax (z :: l))).
+    destruct (Z.max_spec y (zmax (z :: l))) as [[_ E]|[_ E]]; rewrite E; [now right|now left].
+Qed.
+
+Lemma next_channel_lo k m : Forall (fun c => ch_ok k c = true) m -> ch_lo k <= next_channel m.
+Proof.
+  intros H. destruct m as [|y m]; [destruct k; cbn; lia|]. cbn [next_channel].
+  assert (Hi : In (zmax (y :: m)) (y :: m)) by (apply zmax_in; discriminate).
+  rewrite Forall_forall in H. specialize (H _ Hi). unfold ch_ok in H. lia.
+Qed.
+
+Lemma auto_channel_spec k m c : Forall (fun c => ch_ok k c = true) m -> auto_channel k m = Some c ->
+  ~ In c m /\ ch_ok k c = true.
+Proof.
+  intros Hr. unfold auto_channel. destruct (next_channel m <=? ch_hi k) eqn:E.
+  - intros H. inversion H; subst. split; [apply next_channel_fresh|].
+    pose proof (next_channel_lo k m Hr). unfold ch_ok. lia.
+  - unfold first_free. intros H. apply find_some in H. destruct H as [_ H].
+    apply andb_prop in H. destruct H as [H1 H2]. split; [|exact H2].
+    intros Hi. apply zmem_in in Hi. now rewrite Hi in H1.
+Qed.
+
+(* below capacity an automatic channel always exists (pigeonhole over 0 .. length m) *)
+Lemma auto_channel_exists k m : (Z.of_nat (length m) <= ch_hi k) -> auto_channel k m <> None.
+Proof.
+  intros Hc. unfold auto_channel. destruct (next_channel m <=? ch_hi k); [discriminate|].
+  unfold first_free. intros Hn.
+  assert (Hall : forall c, In c (map Z.of_nat (seq 0 (S (length m)))) -> In c m).
+  { intros c Hin. pose proof (find_none _ _ Hn c Hin) as Hf. cbn beta in Hf.
+    apply in_map_iff in Hin. destruct Hin as [i [<- Hi]]. apply in_seq in Hi.
+    assert (ch_ok k (Z.of_nat i) = true) by (unfold ch_ok; destruct k; cbn [ch_lo ch_hi] in *; lia).
+    rewrite H, andb_true_r in Hf. apply negb_false_iff in Hf. now apply zmem_in. }
+  assert (Hnd : NoDup (map Z.of_nat (seq 0 (S (length m))))).
+  { apply FinFun.Injective_map_NoDup; [intros x y; lia|apply seq_NoDup]. }
+  pose proof (NoDup_incl_length Hnd Hall) as Hl. rewrite map_length, seq_length in Hl. lia.
+Qed.
+
+(* ---- one add ---- *)
+Theorem C15_add_auto : forall k b x, aligned b -> ranged k b -> is_item x = true ->
+  match auto_channel k (c_map b) with
+  | Some c => ~ In c (c_map b) /\ ch_ok k c = true /\
+      c_add1 k b x None = (None, mkCB (c_map b ++ [c]) (c_items b ++ [x])) /\
+      aligned (snd (c_add1 k b x None)) /\ c_pairs (snd (c_add1 k b x None)) = c_pairs b ++ [(c, x)]
+  | None => c_add1 k b x None = (Some EValue, b) /\ ch_hi k < Z.of_nat (length (c_map b))
+  end.
+Proof.
+  intros k b x [Hl Hn] Hr Hx. unfold c_add1. rewrite Hx. cbn [negb].
+  destruct (auto_channel k (c_map b)) as [c|] eqn:E.
+  - destruct (auto_channel_spec k _ c Hr E) as [Hf Hok]. cbn [snd]. repeat split; try assumption.
+    + cbn [c_map c_items]. rewrite !app_length. cbn. lia.
+    + cbn [c_map]. now apply NoDup_snoc.
+    + unfold c_pairs. cbn [c_map c_items]. now apply combine_snoc.
+  - split; [reflexivity|]. destruct (Z_lt_le_dec (ch_hi k) (Z.of_nat (length (c_map b)))) as [H|H]; [exact H|].
+    now apply (auto_channel_exists k) in H.
 Qed.
 Print Assumptions C15_add_auto.
 
 Theorem C15_add_explicit : forall k b x c, aligned b -> is_item x = true ->
-  (In c (c_map b) -> c_add1 k b x (Some c) = (Some EValue, b)) /\
-  (~ In c (c_map b) -> c_add1 k b x (Some c) = (None, mkCB (c_map b ++ [c]) (c_items b ++ [x])) /\
+  (In c (c_map b) \/ ch_ok k c = false -> c_add1 k b x (Some c) = (Some EValue, b)) /\
+  (~ In c (c_map b) -> ch_ok k c = true ->
+       c_add1 k b x (Some c) = (None, mkCB (c_map b ++ [c]) (c_items b ++ [x])) /\
        aligned (snd (c_add1 k b x (Some c))) /\ c_pairs (snd (c_add1 k b x (Some c))) = c_pairs b ++ [(c, x)]).
 Proof.
-  intros k b x c [Hl Hn] Hx. unfold c_add1. rewrite Hx. cbn [negb]. split; intros Hc.
-  - apply zmem_in in Hc. now rewrite Hc.
-  - destruct (zmem c (c_map b)) eqn:E; [apply zmem_in in E; contradiction|]. cbn [snd]. repeat split.
+  intros k b x c [Hl Hn] Hx. unfold c_add1. rewrite Hx. cbn [negb]. split.
+  - intros [Hc|Hc].
+    + apply zmem_in in Hc. rewrite Hc. now destruct (ch_ok k c).
+    + now rewrite Hc.
+  - intros Hc Hok. rewrite Hok. cbn [negb].
+    destruct (zmem c (c_map b)) eqn:E; [apply zmem_in in E; contradiction|]. cbn [snd]. repeat split.
     + cbn [c_map c_items]. rewrite !app_length. cbn. lia.
     + cbn [c_map]. now apply NoDup_snoc.
     + unfold c_pairs. cbn [c_map c_items]. now apply combine_snoc.
@@ -124,18 +183,31 @@ Qed.
 Definition sticky (b b' : cblock) : Prop :=
   forall c x, In (c, x) (c_pairs b') -> In (c, x) (c_pairs b) \/ ~ In c (c_map b).
 
-Lemma add1_inv k b x ch : aligned b -> aligned (snd (c_add1 k b x ch)) /\ sticky b (snd (c_add1 k b x ch)).
+Lemma ranged_snoc k b c x : ranged k b -> ch_ok k c = true -> ranged k (mkCB (c_map b ++ [c]) (c_items b ++ [x])).
+Proof. intros Hr Hc. unfold ranged in *. cbn [c_map]. apply Forall_app. split; [exact Hr|now constructor]. Qed.
+
+Lemma add1_inv k b x ch : aligned b -> ranged k b ->
+  aligned (snd (c_add1 k b x ch)) /\ ranged k (snd (c_add1 k b x ch)) /\ sticky b (snd (c_add1 k b x ch)).
 Proof.
-  intros Ha. destruct (is_item x) eqn:Hx.
+  intros Ha Hr. destruct (is_item x) eqn:Hx.
   - destruct ch as [c|].
-    + destruct (C15_add_explicit k b x c Ha Hx) as [H1 H2]. destruct (in_dec Z.eq_dec c (c_map b)) as [Hi|Hi].
-      * rewrite (H1 Hi). split; [exact Ha|]. intros c0 x0 H. now left.
-      * destruct (H2 Hi) as [E [A P]]. split; [exact A|]. intros c0 x0 H. rewrite P in H.
+    + destruct (C15_add_explicit k b x c Ha Hx) as [H1 H2].
+      destruct (in_dec Z.eq_dec c (c_map b)) as [Hi|Hi]; [|destruct (ch_ok k c) eqn:Hok].
+      * rewrite (H1 (or_introl Hi)). repeat split; try assumption; try apply Ha. intros c0 x0 H. now left.
+      * destruct (H2 Hi eq_refl) as [E [A P]]. split; [exact A|]. split; [rewrite E; now apply ranged_snoc|].
+        intros c0 x0 H. rewrite P in H.
         apply in_app_iff in H. destruct H as [H|[H|[]]]; [now left|right]. now inversion H; subst.
-    + destruct (C15_add_auto k b x Ha Hx) as [c [Hf [E [A P]]]]. split; [exact A|]. intros c0 x0 H.
-      rewrite P in H. apply in_app_iff in H. destruct H as [H|[H|[]]]; [now left|right]. now inversion H; subst.
-  - rewrite (C15_add_wrong_kind k b x ch Hx). split; [exact Ha|]. intros c0 x0 H. now left.
+      * rewrite (H1 (or_intror eq_refl)). repeat split; try assumption; try apply Ha. intros c0 x0 H. now left.
+    + pose proof (C15_add_auto k b x Ha Hr Hx) as H. destruct (auto_channel k (c_map b)) as [c|].
+      * destruct H as [Hf [Hok [E [A P]]]]. split; [exact A|]. split; [rewrite E; now apply ranged_snoc|].
+        intros c0 x0 H. rewrite P in H. apply in_app_iff in H.
+        destruct H as [H|[H|[]]]; [now left|right]. now inversion H; subst.
+      * destruct H as [E _]. rewrite E. repeat split; try assumption; try apply Ha. intros c0 x0 H. now left.
+  - rewrite (C15_add_wrong_kind k b x ch Hx). repeat split; try assumption; try apply Ha. intros c0 x0 H. now left.
 Qed.
+
+Lemma remove_nth_l_forall {A} (P : A -> Prop) (l : list A) n : Forall P l -> Forall P (remove_nth_l n l).
+Proof. rewrite !Forall_forall. intros H x Hx. apply H. now apply (remove_nth_l_incl l n). Qed.
 
 Lemma del_inv b pos : aligned b -> (pos < length (c_items b))%nat ->
   aligned (c_del b pos) /\ sticky b (c_del b pos).
@@ -144,59 +216,94 @@ Proof.
   intros c x H. left. rewrite P in H. now apply (remove_nth_l_incl _ pos).
 Qed.
 
-Theorem C15_step_aligned : forall k ieq b c, aligned b -> aligned (snd (c_step k ieq b c)).
+Definition inv (k : ckind) (b : cblock) : Prop := aligned b /\ ranged k b.
+
+Lemma del_inv_r k b pos : inv k b -> (pos < length (c_items b))%nat -> inv k (c_del b pos).
 Proof.
-  intros k ieq b c Ha. destruct c as [x ch|s|i|x|xs|xs]; cbn [c_step].
-  - now apply add1_inv.
-  - unfold c_remove_label. destruct (find_index _ _) as [pos|] eqn:E; [|exact Ha].
-    apply del_inv; [exact Ha|now apply find_index_lt in E].
+  intros [Ha Hr] Hp. split; [now apply del_inv|]. unfold ranged, c_del. cbn [c_map]. now apply remove_nth_l_forall.
+Qed.
+
+Lemma add_many_inv k : forall xs b, inv k b -> inv k (snd (c_add_many k b xs)).
+Proof.
+  induction xs as [|[x ch] xs IH]; intros b [Ha Hr]; cbn [c_add_many]; [now split|].
+  pose proof (add1_inv k b x ch Ha Hr) as [A [R _]].
+  destruct (c_add1 k b x ch) as [[e|] b'] eqn:E; cbn [snd] in *; [now split|]. apply IH. now split.
+Qed.
+
+Theorem C15_step_aligned : forall k ieq b c, inv k b -> inv k (snd (c_step k ieq b c)).
+Proof.
+  intros k ieq b c Hi. pose proof Hi as [Ha Hr]. destruct c as [x ch|s|i|x|xs|xs]; cbn [c_step].
+  - pose proof (add1_inv k b x ch Ha Hr) as [A [R _]]. now split.
+  - unfold c_remove_label. destruct (find_index _ _) as [pos|] eqn:E; [|exact Hi].
+    apply del_inv_r; [exact Hi|now apply find_index_lt in E].
   - unfold c_remove_index. pose proof (zlength_correct (c_items b)) as Hz.
-    destruct (zlength (c_items b) <=? i) eqn:E1; [exact Ha|].
-    destruct (i <? - zlength (c_items b)) eqn:E2; [exact Ha|].
-    apply del_inv; [exact Ha|]. destruct (i <? 0) eqn:E3; lia.
-  - unfold c_remove_item. destruct (find_index _ _) as [pos|] eqn:E; [|exact Ha].
-    apply del_inv; [exact Ha|now apply find_index_lt in E].
-  - revert b Ha. induction xs as [|[x ch] xs IH]; intros b Ha; cbn [c_add_many]; [exact Ha|].
-    destruct (c_add1 k b x ch) as [[e|] b'] eqn:E.
-    + pose proof (add1_inv k b x ch Ha) as [A _]. now rewrite E in A.
-    + apply IH. pose proof (add1_inv k b x ch Ha) as [A _]. now rewrite E in A.
-  - assert (Ha0 : aligned (mkCB [] [])) by (split; [reflexivity|constructor]).
-    generalize (mkCB [] []) Ha0. clear b Ha Ha0.
-    induction xs as [|[x ch] xs IH]; intros b Ha; cbn [c_add_many]; [exact Ha|].
-    destruct (c_add1 k b x ch) as [[e|] b'] eqn:E.
-    + pose proof (add1_inv k b x ch Ha) as [A _]. now rewrite E in A.
-    + apply IH. pose proof (add1_inv k b x ch Ha) as [A _]. now rewrite E in A.
+    destruct (zlength (c_items b) <=? i) eqn:E1; [exact Hi|].
+    destruct (i <? - zlength (c_items b)) eqn:E2; [exact Hi|].
+    apply del_inv_r; [exact Hi|]. destruct (i <? 0) eqn:E3; lia.
+  - unfold c_remove_item. destruct (find_index _ _) as [pos|] eqn:E; [|exact Hi].
+    apply del_inv_r; [exact Hi|now apply find_index_lt in E].
+  - now apply add_many_inv.
+  - apply add_many_inv. split; [split; [reflexivity|constructor]|constructor].
 Qed.
 Print Assumptions C15_step_aligned.
 
-(* any sequence of calls, from any aligned start (empty, constructor-filled, decoded) *)
-Theorem C15_invariant : forall k ieq cs b, aligned b -> aligned (c_run k ieq b cs).
+(* any sequence of calls, from any aligned start (empty, constructor-filled, decoded): the two lists stay
+   index-aligned, the channels unique, and every channel fits the 16-bit field it is encoded in *)
+Theorem C15_invariant : forall k ieq cs b, inv k b -> inv k (c_run k ieq b cs).
 Proof.
   intros k ieq cs. induction cs as [|c cs IH]; intros b Ha; cbn [c_run fold_left]; [exact Ha|].
   apply IH. now apply C15_step_aligned.
 Qed.
 Print Assumptions C15_invariant.
 
-(* the three origins are aligned *)
+(* the three origins satisfy the invariant *)
 Theorem C15_origins : forall k,
-  aligned (mkCB [] []) /\
-  (forall xs, Forall (fun x => is_item x = true) xs ->
-     aligned (snd (c_add_many k (mkCB [] []) (map (fun x => (x, None)) xs))) /\
+  inv k (mkCB [] []) /\
+  (forall xs, Forall (fun x => is_item x = true) xs -> (Z.of_nat (length xs) <= ch_hi k) ->
+     inv k (snd (c_add_many k (mkCB [] []) (map (fun x => (x, None)) xs))) /\
      length (c_items (snd (c_add_many k (mkCB [] []) (map (fun x => (x, None)) xs)))) = length xs) /\
-  (forall m its, length m = length its -> NoDup m -> aligned (mkCB m its)).
+  (forall m its, length m = length its -> NoDup m -> Forall (fun c => ch_ok k c = true) m -> inv k (mkCB m its)).
 Proof.
-  intros k. split; [split; [reflexivity|constructor]|]. split.
+  intros k. assert (I0 : inv k (mkCB [] [])) by (split; [split; [reflexivity|constructor]|constructor]).
+  split; [exact I0|]. split.
   - intros xs Hx.
-    assert (G : forall b, aligned b ->
-              aligned (snd (c_add_many k b (map (fun x => (x, None)) xs))) /\
+    assert (G : forall b, inv k b -> (Z.of_nat (length (c_map b) + length xs) <= ch_hi k) ->
+              inv k (snd (c_add_many k b (map (fun x => (x, None)) xs))) /\
               length (c_items (snd (c_add_many k b (map (fun x => (x, None)) xs)))) = (length (c_items b) + length xs)%nat).
-    { induction Hx as [|x xs Hx1 _ IH]; intros b Ha; cbn [map c_add_many snd length]; [split; [exact Ha|lia]|].
-      destruct (C15_add_auto k b x Ha Hx1) as [c [_ [E [A _]]]]. rewrite E in *. cbn [snd] in A.
-      destruct (IH _ A) as [A2 L2]. split; [exact A2|]. rewrite L2. cbn [c_items]. rewrite app_length. cbn. lia. }
-    destruct (G (mkCB [] [])) as [A L]; [split; [reflexivity|constructor]|]. split; [exact A|exact L].
-  - intros m its Hl Hn. split; assumption.
+    { induction Hx as [|x xs Hx1 _ IH]; intros b [Ha Hr] Hc; cbn [map c_add_many snd length]; [split; [now split|lia]|].
+      pose proof (C15_add_auto k b x Ha Hr Hx1) as H. destruct (auto_channel k (c_map b)) as [c|].
+      - destruct H as [_ [Hok [E [A _]]]]. rewrite E in *. cbn [snd] in A.
+        assert (I2 : inv k (mkCB (c_map b ++ [c]) (c_items b ++ [x]))) by (split; [exact A|now apply ranged_snoc]).
+        destruct (IH _ I2) as [A2 L2]; [cbn [c_map length] in *; rewrite app_length; cbn [length] in *; lia|].
+        split; [exact A2|]. rewrite L2. cbn [c_items]. rewrite app_length. cbn. lia.
+      - destruct H as [_ H]. cbn [length] in Hc. lia. }
+    intros Hc. destruct (G (mkCB [] []) I0) as [A L]; [cbn [c_map length]; lia|]. split; [exact A|exact L].
+  - intros m its Hl Hn Hr. split; [split; assumption|exact Hr].
 Qed.
 Print Assumptions C15_origins.
+
+(* "encoding emits the pairs": the 16-bit field of the channel map (Blocks.i16 / Blocks.u16) holds exactly the
+   channels the invariant admits — each comes back unchanged, and no channel outside the range could *)
+Theorem C15_channel_field_exact : forall k c,
+  (ch_ok k c = true -> int_of_unsigned 2 (ch_lo k) (ch_hi k + 1) (le_val (le_bytes 2 c)) = Some c) /\
+  (ch_ok k c = false -> int_of_unsigned 2 (ch_lo k) (ch_hi k + 1) (le_val (le_bytes 2 c)) <> Some c).
+Proof.
+  intros k c. assert (P : pow256 2 = 65536) by reflexivity. split; intros H.
+  - rewrite le_val_le_bytes. apply int_of_unsigned_mod; rewrite ?P; unfold ch_ok in H; destruct k; cbn [ch_lo ch_hi] in *; lia.
+  - intros E. apply int_of_unsigned_inv in E.
+    + unfold ch_ok in H. lia.
+    + rewrite le_val_le_bytes. apply Z.mod_pos_bound. rewrite P. lia.
+Qed.
+Print Assumptions C15_channel_field_exact.
+
+Theorem C15_map_field_exact : forall k ieq cs b, inv k b ->
+  map (fun c => int_of_unsigned 2 (ch_lo k) (ch_hi k + 1) (le_val (le_bytes 2 c))) (c_map (c_run k ieq b cs))
+  = map Some (c_map (c_run k ieq b cs)).
+Proof.
+  intros k ieq cs b Hi. destruct (C15_invariant k ieq cs b Hi) as [_ Hr]. unfold ranged in Hr.
+  induction Hr as [|c m Hc _ IH]; [reflexivity|]. cbn [map]. rewrite IH. f_equal. now apply C15_channel_field_exact.
+Qed.
+Print Assumptions C15_map_field_exact.
 
 (* removal by position / label / item deletes exactly one pair and re-binds nothing *)
 Theorem C15_remove_exact : forall b s pos, aligned b ->
